@@ -222,6 +222,17 @@ def shapes(tier, seed):
                ["or", ["cmp", "eq", ["a", "w", "a"], ["a", "x", "a"]], ["cmp", "gt", ["a", "w", "b"], ["a", "y", "b"]]]]]:
         add(c, select=[["v", "x"], ["v", "y"], ["v", "w"]], base=B3)
         add(c, select=[["v", "w"], ["v", "x"]], base=B3)
+    # three variables, a three-way disjunction over DIFFERENT variable sets inside a join (its inner else-if is replayed from
+    # the right-side cache for a second binding of the first variable)
+    E = lambda a, fa, b, fb: ["cmp", "eq", ["a", a, fa], ["a", b, fb]]
+    G1 = lambda a, f: ["cmp", "gt", ["a", a, f], ["lit", 1]]
+    for c in [["and", E("x", "a", "y", "a"), ["or", E("x", "b", "w", "b"), E("y", "b", "w", "c"), G1("x", "c")]],
+              ["and", E("x", "a", "y", "a"), ["or", E("y", "b", "w", "c"), G1("x", "c"), E("x", "b", "w", "b")]],
+              ["and", G1("w", "a"), ["or", E("x", "b", "w", "b"), E("y", "b", "w", "c"), G1("y", "c")]],
+              ["or", E("x", "b", "w", "b"), E("y", "b", "w", "c"), G1("x", "c")],
+              ["and", E("x", "a", "y", "a"), ["not", ["and", ["cmp", "ne", ["a", "x", "b"], ["a", "w", "b"]],
+                                                       ["cmp", "ne", ["a", "y", "b"], ["a", "w", "c"]], ["cmp", "le", ["a", "x", "c"], ["lit", 1]]]]]]:
+        add(c, select=[["v", "x"], ["v", "y"], ["v", "w"]], base=B3)
     # rule trees (every tree of the C12 grammar with <= 4 branches; branch-variable and pair-matching variants for <= 3)
     from props import c12
     for B in range(1, (4 if tier == "quick" else 5) + 1):
